@@ -7,6 +7,8 @@ class Facts:
     def __init__(self, path):
         with open(path) as f:
             d = json.load(f)
+        import inline
+        self.inlined = inline.inline_new_helpers(d, inline.load_known())
         self.raw = d
         self.crate = d['crate']
         self.features = d['cfg_features']
